@@ -226,6 +226,12 @@ func sHigher(c *Ctx, rule string) {
 		}
 		_ = sites
 	}
+	sHigherLeaderSide(c, rule)
+}
+
+// sHigherLeaderSide: a leader that sees a higher term in a response stops
+// replicating and steps down.
+func sHigherLeaderSide(c *Ctx, rule string) {
 	// leader side
 	for _, h := range []string{"(*Raft).replicateTo", "(*Raft).sendLatestSnapshot", "(*Raft).pipelineDecode"} {
 		fn := c.Fn(rule, h)
